@@ -1,6 +1,6 @@
 (* C03 -- Printed code parses back to the tree it was printed from (tree-level and text-level clauses).
    Property theorems only. *)
-Require Import Base Token Lexer Tree Writer Compile Parser Grammar WriterSpec PrintSpec CommentSpec RelexSpec NestSpec PrintProofs RelexProofs AssembledPrettyProofs.
+Require Import Base Token Lexer Tree Writer Compile Parser Grammar WriterSpec PrintSpec CommentSpec RelexSpec NestSpec PrintProofs RelexProofs AssembledPrettyProofs RefutedPretty.
 Require Import Gen.Tables Gen.Printer.
 
 (* the printer-side precedence of every node kind is its ECMAScript level: the two
@@ -72,3 +72,15 @@ Theorem C03_print_parse_pretty : forall e indent semis m,
             = map strip_groups_stmt (p_stmts (shape_program (expr_program e))).
 Proof. exact print_parse_pretty. Qed.
 Print Assumptions C03_print_parse_pretty.
+
+(* REFUTED CLAUSE (recorded finding KF4 as a theorem; witness evaluated by the kernel): for
+   statement-level ASSEMBLED trees the round trip is false.  Witness: the if statement
+   assembled from  then = (if(b)c; without else)  and  else = d; .  Its compact text parses
+   without error, but the else belongs to the inner if: the outer else branch is nil. *)
+Theorem C03_assembled_dangling_else_refuted :
+  outer_else_nil (shape_program kf4_tree) = false /\
+  exists r, reparse_compact kf4_tree = Some r /\ pr_errors r = [] /\
+            outer_else_nil (shape_program (pr_program r)) = true /\
+            shape_program (pr_program r) <> shape_program kf4_tree.
+Proof. exact kf4_dangling_else_refuted. Qed.
+Print Assumptions C03_assembled_dangling_else_refuted.
